@@ -31,7 +31,7 @@ import (
 
 type vfC14Case struct {
 	Seed     uint64
-	Size     int    // approx. payload size (log padding of the metadata protobuf); -1: raw tiny payload of RawLen bytes
+	Size     int // approx. payload size (log padding of the metadata protobuf); -1: raw tiny payload of RawLen bytes
 	RawLen   int
 	Frames   int
 	Shape    string // "schema" or "tree"
